@@ -32,6 +32,9 @@ class EFLRSet(LogicalRecord):
         self._set_type_struct = write_struct_ident(self.set_type)  # used in the header
         self._eflr_item_list: list[EFLRItem] = []  # instances of EFLRItem registered with this EFLRSet instance
 
+        # sets of this type (by set name) in the logical file this set has been added to; maintained by EFLRSetsDict
+        self._sets_of_logical_file: Optional[dict] = None
+
     def __str__(self) -> str:
         """Represent the EFLRSet instance as str."""
 
@@ -88,6 +91,19 @@ class EFLRSet(LogicalRecord):
         """Return a list of all EFLRItem instances registered with this EFLRSet instance."""
 
         return self._eflr_item_list[:]  # copy
+
+    def get_all_eflr_items_of_type(self) -> list[EFLRItem]:
+        """Return a list of all EFLRItem instances registered with any set of this type in the same logical file.
+
+        Objects of one type are told apart by their names, copy numbers and origins throughout the logical file,
+        no matter how they are distributed over the sets of that type.
+        """
+
+        eflr_sets = [self]
+        if self._sets_of_logical_file is not None:
+            eflr_sets.extend(s for s in self._sets_of_logical_file.values() if s is not self)
+
+        return [item for eflr_set in eflr_sets for item in eflr_set.get_all_eflr_items()]
 
     @property
     def n_items(self) -> int:
